@@ -1,0 +1,45 @@
+//go:build verif
+
+// Contracts for the VC generator in /verif (comment-only).
+
+package sen
+
+//@ unit writers
+
+// Writer entry points: from ANY prior state of a reused or pooled Writer, encoding starts with an empty buffer, the
+// destination of this call (none for SEN/Bytes/String, w for Write) and the append functions this call's options select.
+
+//@ pred WFuncs(wr) = ((wr.Tab || 0 < wr.Indent) ==> wr.appendArray == appendArray && wr.appendDefault == appendDefault
+//@        && (wr.Sort ==> wr.appendObject == appendSortObject) && (!wr.Sort ==> wr.appendObject == appendObject))
+//@     && (!(wr.Tab || 0 < wr.Indent) ==> wr.appendArray == tightArray && wr.appendDefault == tightDefault
+//@        && (wr.Sort ==> wr.appendObject == tightSortObject) && (!wr.Sort ==> wr.appendObject == tightObject))
+
+//@ func (*Writer).calcFieldsIndex
+//@   modifies wr.findex
+
+// Assumed frame of the encoders (not verified here): they write the buffer and the separator flag and raise, nothing else of the Writer.
+//@ func (*Writer).appendSEN
+//@   trusted
+//@   raises
+//@   modifies wr.buf, heap(wr.buf), wr.needSep
+//@ func (*Writer).colorSEN
+//@   trusted
+//@   raises
+//@   modifies wr.buf, heap(wr.buf), wr.needSep
+
+//@ func (*Writer).MustSEN
+//@   raises
+//@   modifies everything
+//@   at call appendSEN#0
+//@     assert [C07 C10 start] isnil(wr.w) && len(wr.buf) == 0 && 0 < wr.InitSize && WFuncs(wr)
+//@   at call colorSEN#0
+//@     assert [C07 C10 start] isnil(wr.w) && len(wr.buf) == 0 && 0 < wr.InitSize
+
+//@ func (*Writer).MustWrite
+//@   raises
+//@   requires w != nil
+//@   modifies everything
+//@   at call appendSEN#0
+//@     assert [C07 C10 start] wr.w == w && len(wr.buf) == 0 && 0 < wr.InitSize && 0 < wr.WriteLimit && WFuncs(wr)
+//@   at call colorSEN#0
+//@     assert [C07 C10 start] wr.w == w && len(wr.buf) == 0 && 0 < wr.InitSize && 0 < wr.WriteLimit
